@@ -861,20 +861,74 @@ pub fn string_replace_all(
     this: JsValue,
     args: &[JsValue],
 ) -> Result<Guarded, JsError> {
-    let s = interp.to_js_string(&this);
+    use crate::value::ExoticObject;
+
+    // A RegExp pattern must be global and then behaves like replace()
+    if let Some(JsValue::Object(obj)) = args.first() {
+        let regexp_flags = match &obj.borrow().exotic {
+            ExoticObject::RegExp { flags, .. } => Some(flags.clone()),
+            _ => None,
+        };
+        if let Some(flags) = regexp_flags {
+            if !flags.contains('g') {
+                return Err(JsError::type_error(
+                    "replaceAll must be called with a global RegExp",
+                ));
+            }
+            return string_replace(interp, this, args);
+        }
+    }
+
+    let s = interp.to_js_string(&this).to_string();
     let search = match args.first() {
-        Some(v) => interp.to_js_string(v),
-        None => interp.intern(""),
+        Some(v) => interp.coerce_to_string(v)?.to_string(),
+        None => "undefined".to_string(),
     };
-    let replacement = match args.get(1) {
-        Some(v) => interp.to_js_string(v),
-        None => interp.intern(""),
+    let replacement_arg = args.get(1).cloned().unwrap_or(JsValue::Undefined);
+    let replacement_fn = match &replacement_arg {
+        JsValue::Object(obj) if obj.borrow().is_callable() => true,
+        _ => false,
+    };
+    let replacement_template = if replacement_fn {
+        String::new()
+    } else {
+        interp.to_js_string(&replacement_arg).to_string()
     };
 
-    // Replace all occurrences
-    Ok(Guarded::unguarded(JsValue::String(JsString::from(
-        s.as_str().replace(search.as_str(), replacement.as_str()),
-    ))))
+    // Replace every occurrence (an empty pattern matches at every character boundary)
+    let positions: Vec<usize> = s.match_indices(search.as_str()).map(|(i, _)| i).collect();
+    let mut result = String::with_capacity(s.len());
+    let mut last_end = 0;
+    for start in positions {
+        if start < last_end {
+            continue;
+        }
+        let end = start + search.len();
+        result.push_str(s.get(last_end..start).unwrap_or(""));
+        if replacement_fn {
+            let call_args = vec![
+                JsValue::String(JsString::from(search.clone())),
+                JsValue::Number(start as f64),
+                JsValue::String(JsString::from(s.clone())),
+            ];
+            let replaced =
+                interp.call_function(replacement_arg.clone(), JsValue::Undefined, &call_args)?;
+            result.push_str(interp.to_js_string(&replaced.value).as_ref());
+        } else {
+            let before = s.get(..start).unwrap_or("");
+            let after = s.get(end..).unwrap_or("");
+            result.push_str(&expand_replacement_pattern(
+                &replacement_template,
+                &search,
+                before,
+                after,
+                None,
+            ));
+        }
+        last_end = end;
+    }
+    result.push_str(s.get(last_end..).unwrap_or(""));
+    Ok(Guarded::unguarded(JsValue::String(JsString::from(result))))
 }
 
 pub fn string_pad_start(
@@ -1468,17 +1522,20 @@ fn expand_replacement_pattern(
                     }
 
                     // Get the capture group (group 0 is the whole match, groups are 1-indexed in JS)
-                    if group_num > 0 {
+                    let group_count = captures.map(|c| c.len().saturating_sub(1)).unwrap_or(0);
+                    if group_num > 0 && group_num <= group_count {
                         if let Some(caps) = captures
                             && let Some(m) = caps.get(group_num)
                         {
                             result.push_str(m.as_str());
                         }
-                        // Undefined group -> empty string (nothing to push)
+                        // A group that did not participate -> empty string (nothing to push)
                     } else {
-                        // $0 is not valid, treat as literal
+                        // $0, or a group the pattern does not have (always the case for a
+                        // string pattern): the reference stays in the result literally
                         result.push('$');
                         result.push(first_digit);
+                        consumed = 2;
                     }
                     i += consumed;
                 }
